@@ -356,3 +356,31 @@ Proof. intros H. apply t_accepts_manager_tcp. exact (dial_shape_tcp listen a q H
 Theorem ws_dial_accepts_manager_addresses listen a q :
   DialShape.dial_shape listen a = DialShape.SvWs q -> expect_of TWs a = Some (Some q).
 Proof. intros H. apply t_accepts_manager_ws. exact (dial_shape_ws listen a q H). Qed.
+
+(* ---------- addresses a transport does not take: an error or a failure report, nothing stuck ---------- *)
+(* a refused dial changes nothing: no future, no pending_dials entry, nothing owed *)
+Theorem t_refused_dial_no_effect t s g c a :
+  expect_of t a = None ->
+  tstep t s (XDial c a) = (s, [ORet false]) /\
+  gstep (ev_of t (XDial c a)) (snd (tstep t s (XDial c a))) g = g.
+Proof.
+  intros E. unfold tstep. cbn [ev_of]. rewrite E. cbn [step]. split; reflexivity.
+Qed.
+
+(* an open none of whose addresses the transport takes (malformed, another transport's, for WebSocket
+   and QUIC also a missing /p2p) is answered by OpenFailure at the very next poll *)
+Theorem t_open_unparsable_fails t s g c l e :
+  treach t s g -> caller_ok g (ev_of t (XOpen c l)) = true -> attempts_of t l = [] -> polls e = true ->
+  In (OEv (TOpenFailure c)) (snd (tstep t (fst (tstep t s (XOpen c l))) (XEv e))).
+Proof.
+  intros R Hc Ha Hp.
+  pose proof (treachS t s g (XOpen c l) R eq_refl Hc) as R1.
+  destruct (reach_inv _ _ (treach_reach _ _ _ R)) as [U C].
+  assert (Hn : lookup (nfut s) (praw s) = None).
+  { apply lookup_none. intros v H. pose proof (c_raw_lt _ _ C _ _ H) as Hlt. apply N.lt_irrefl in Hlt. exact Hlt. }
+  apply (t_progress_open_no_address t _ _ (nfut s) c e R1); unfold tstep; cbn [ev_of step fst snd]; try exact Hp.
+  - cbn [praw new_fut set_nfut set_attempts set_cancel set_praw]. rewrite (lookup_app_none _ _ _ Hn).
+    unfold lookup. rewrite N.eqb_refl. reflexivity.
+  - unfold gstep. cbn [gcall fold_left gout g_open]. left. reflexivity.
+  - cbn [attempts new_fut set_nfut set_attempts set_cancel set_praw]. rewrite Ha. cbn [number]. apply lookup_put_eq.
+Qed.
